@@ -1300,7 +1300,9 @@ class OrderedMultiDict(dict):
         elif hasattr(other, 'keys'):
             for selfk in self:
                 try:
-                    if other[selfk] != self[selfk]:
+                    # a mapping with __missing__ (defaultdict, Counter)
+                    # answers other[selfk] for keys it does not have
+                    if selfk not in other or other[selfk] != self[selfk]:
                         return False
                 except KeyError:
                     return False
